@@ -644,6 +644,7 @@ func runC01(c *Ctx) int {
 			for i := ch; i < len(cases); i += chunks {
 				base := cases[i]
 				for si, stall := range stalls {
+					guardProgress.Add(1)
 					if c.Quick() && si == 1 && i%2 == 0 { // quick: 3 of 4 stall histories on average
 						continue
 					}
@@ -671,7 +672,7 @@ func runC01(c *Ctx) int {
 			}
 		}(ch)
 	}
-	wg.Wait()
+	guardedWait(&wg)
 	var tot c01Stats
 	for ch := 0; ch < chunks; ch++ {
 		run.Merge(parts[ch].Export())
